@@ -997,6 +997,14 @@ func (fv *FV) ptrElem(p *Term) (arr, off *Term) {
 	if p.Op == "elem" {
 		return p.Args[0], p.Args[1]
 	}
+	// unsafe.SliceData of a possibly nil slice: (ite (= a nil) nil (elem a o)); the nil case has array nil as well
+	if p.Op == "ite" && p.Args[1] == NilRef && p.Args[2].Op == "elem" && p.Args[0].Op == "=" {
+		e := p.Args[2]
+		c := p.Args[0]
+		if (c.Args[0] == e.Args[0] && c.Args[1] == NilRef) || (c.Args[1] == e.Args[0] && c.Args[0] == NilRef) {
+			return e.Args[0], e.Args[1]
+		}
+	}
 	return mk("lparent", RefSort, p), mk("lidx", fv.l.idxSort(), p)
 }
 
